@@ -70,6 +70,24 @@ func TestGovcReplayTransfer(t *testing.T) {
 	}
 	exec := &BlockExecutor{ledger: ldg, logger: log.NewWithModule("executor")}
 
+	if in.Values["toNil"] == "true" {
+		// a transfer whose receiver is absent (C08): the call must come back, with or without an error
+		sender := types.NewAddressByStr("0x1000000000000000000000000000000000000001")
+		ldg.SetBalance(sender, big.NewInt(1000))
+		var perr interface{}
+		var terr error
+		func() {
+			defer func() { perr = recover() }()
+			terr = exec.transfer(sender, nil, big.NewInt(5))
+		}()
+		fmt.Printf("replay: transfer(sender, nil, 5) -> err=%v panic=%v\n", terr, perr)
+		if perr != nil {
+			fmt.Println("REPLAY-CONFIRMED clause", in.Clause, "is violated by the real function on this input: transfer to an absent receiver panics (the executor does not recover: node crash)")
+		} else {
+			fmt.Println("REPLAY-NOT-CONFIRMED the call returned")
+		}
+		return
+	}
 	from := types.NewAddressByStr("0x1000000000000000000000000000000000000001")
 	to := types.NewAddressByStr("0x2000000000000000000000000000000000000002")
 	same := in.Values["same"] == "true"
